@@ -272,8 +272,8 @@ def run_lib(env, case):
 
 
 # ================================================================================================ (ii) reference prover
-ADV = ["honest", "honest", "exact", "exp_hi", "reserved", "mant_hi", "overflow", "exp_overflow", "spare_bits", "trailing", "digit_bad_x", "digit_x_plus_p",
-       "scalar_zero", "last_inf", "wrong_witness", "f3", "ref_sender"]
+ADV = ["honest", "honest", "exact", "exp_hi", "reserved", "mant_hi", "overflow", "overflow", "overflow", "exp_overflow", "spare_bits", "trailing", "digit_bad_x", "digit_bad_x",
+       "digit_x_plus_p", "scalar_zero", "last_inf", "wrong_witness", "f3", "ref_sender"]
 MANT_SMALL = [1, 1, 2, 2, 3, 3, 4, 5, 5, 6, 7, 8, 9, 11, 16, 17, 19, 33]
 
 
@@ -378,7 +378,7 @@ def build_ref(env, case):
     if a == "exact":
         minsel = "small" if minsel == "none" and param & 1 else minsel
     if a == "overflow":
-        which = param % 4
+        which = param % 3
         room = U64 - min(maxv, U64)
         if which == 0:
             minv = room                                  # min + max == 2^64 - 1: still valid
@@ -518,7 +518,7 @@ def build_ref(env, case):
         i = param % (rings - 1)
         off = len(header) + R.sign_bytes(rings) + 32 * i
         x = ec.b2i(proof[off:off + 32])
-        sub = (param >> 3) % 5
+        sub = (param >> 3) % 6
         if sub < 3:
             nx = [P, P + 1 + param % 900, (1 << 256) - 1][sub]
             tag = "digit_x_ge_p"
@@ -684,13 +684,13 @@ def _only(adv):
 
 
 TESTS = [
-    Test("lib_mutations", lib_case, run_lib, quick=64, thorough=1600, max_workers=16,
+    Test("lib_mutations", lib_case, run_lib, quick=64, thorough=1200, max_workers=16,
          must_cover=["flips:every_bit", "flips:sampled256", "mant=64", "mant=exact", "mant=1", "trunc_ext", "extra_mut", "other_commit_gen", "verdict:accept", "verdict:reject"]),
-    Test("ref_prover", ref_case, run_ref, quick=420, thorough=20000, max_workers=16,
+    Test("ref_prover", ref_case, run_ref, quick=420, thorough=16000, max_workers=16,
          must_cover=["small_s", "s_plus_n_twin", "honest:accepted", "exact:accepted", "exp_hi:rejected", "reserved:rejected", "mant_hi:rejected", "overflow:just_below", "overflow:at",
                      "overflow:above", "overflow:accepted", "overflow:rejected", "exp_overflow:rejected", "spare_bits:rejected", "trailing:rejected", "digit_x_ge_p", "digit_off_curve",
                      "digit_x_plus_p:accepted", "digit_x_plus_p_twin", "scalar_zero:rejected", "last_inf:rejected", "wrong_witness:rejected", "ref_sender_rewound", "mant=33-64"]),
-    Test("rewind_digit_outside_ring", _only("f3"), run_ref, quick=60, thorough=3000, max_workers=4, must_cover=["f3:accepted"]),
-    Test("random_strings", rand_case, run_rand, quick=400, thorough=20000, max_workers=2, must_cover=["format_ok", "format_reject"]),
-    Test("info_strings", info_case, run_info, quick=3000, thorough=100000, max_workers=2, must_cover=["info_ok", "info_reject", "reserved_bit", "exp>18", "mantissa>64", "range_overflow"]),
+    Test("rewind_digit_outside_ring", _only("f3"), run_ref, quick=60, thorough=2000, max_workers=8, must_cover=["f3:accepted"]),
+    Test("random_strings", rand_case, run_rand, quick=400, thorough=20000, max_workers=4, must_cover=["format_ok", "format_reject"]),
+    Test("info_strings", info_case, run_info, quick=3000, thorough=100000, max_workers=4, must_cover=["info_ok", "info_reject", "reserved_bit", "exp>18", "mantissa>64", "range_overflow"]),
 ]
